@@ -33,7 +33,9 @@ def decl_text(d):
         o.append('#[bits(%d)]' % d['bits'])
     o.append('#[repr(u8)]')
     o.append('pub enum %s {' % d['name'])
-    for v in d['variants']:
+    for vi, v in enumerate(d['variants']):
+        if d.get('noise'):
+            o.append(['    /// documented variant', '    #[allow(dead_code)]', '    #[doc = "x"]', '    #[cfg_attr(any(), deprecated)]'][vi % 4])
         if v['display']:
             o.append("    #[display('%s')]" % v['ch'])
         if v['alts'] and d.get('altsplit'):
@@ -42,6 +44,8 @@ def decl_text(d):
                 o.append('    #[alt(%s)]' % (hex(a) if j % 3 == 1 else bin(a) if j % 3 == 2 else str(a)))
         elif v['alts']:
             o.append('    #[alt(%s)]' % ', '.join(str(a) for a in v['alts']))
+        if d.get('noise') and vi % 2 == 0:
+            o.append('    /// trailing doc comment')
         o.append('    %s = %s,' % (v['name'], v['lit']))
     o.append('}')
     return '\n'.join(o)
